@@ -44,7 +44,7 @@ def oracle(rng, tier):
         ct = rng.choice(['NRTL', 'UNIQUAC'])
         mem = pvtools.simple_membrane(m, 0.05, 0.002, T=T)
         pvo = pv.Pervaporation(mem, m)
-        entry = rng.choice(['solver', 'permcomp', 'sepfactor', 'ideal_curve', 'nonideal_curve', 'process', 'measurements'])
+        entry = rng.choice(['solver', 'permcomp', 'sepfactor', 'ideal_curve', 'nonideal_curve', 'process', 'measurements', 'curve_points', 'curve_points'])
         ok, detail = True, ''
         case = {'mixture': gens.describe_mixture(m), 'w': w, 'x': cm.p, 'T': T, 'Tp': Tp, 'pp': pp, 'model': ct, 'entry': entry}
         try:
@@ -99,6 +99,30 @@ def oracle(rng, tier):
                       and all(c.type == 'weight' for c in b.feed_compositions))
                 detail = '%s differs between a mass- and a mole-fraction initial feed' % cfg['kind']
                 case['kind'] = cfg['kind']
+            elif entry == 'curve_points':
+                # the same physical points, every point written independently as a mass or as a mole fraction
+                from pyvaporation.diffusion_curve import DiffusionCurve, DiffusionCurveSet
+                npts = rng.randint(2, 5)
+                ws = sorted(gens.interior(rng) for _ in range(npts))
+                bases = [rng.choice(['weight', 'molar']) for _ in range(npts)]
+                J = [(gens.loguniform(rng, 1e-2, 2), gens.loguniform(rng, 1e-4, 1)) for _ in range(npts)]
+                pts_w = [pv.Composition(p=x, type='weight') for x in ws]
+                pts_x = [c if b == 'weight' else c.to_molar(m) for c, b in zip(pts_w, bases)]
+                kw = dict(mixture=m, membrane_name='o', feed_temperature=T, partial_fluxes=J, permeate_temperature=Tp, permeate_pressure=pp)
+                a = DiffusionCurve(feed_compositions=pts_w, **kw)
+                b = DiffusionCurve(feed_compositions=pts_x, **kw)
+                case['points'] = [[c.p, c.type] for c in pts_x]
+                pairs = [('separation factor', a.get_separation_factor, b.get_separation_factor), ('PSI', a.get_psi, b.get_psi),
+                         ('selectivity', a.get_selectivity, b.get_selectivity),
+                         ('permeances', [q[i].value for q in a.permeances for i in (0, 1)], [q[i].value for q in b.permeances for i in (0, 1)]),
+                         ('permeate composition', [y.p for y in a.permeate_composition], [y.p for y in b.permeate_composition])]
+                for f in ('from_diffusion_curve_first', 'from_diffusion_curve_second'):
+                    da, db = getattr(Measurements, f)(a).data, getattr(Measurements, f)(b).data
+                    pairs.append(('fit points x (%s)' % f, [d.x for d in da], [d.x for d in db]))
+                    pairs.append(('fit points p (%s)' % f, [d.p for d in da], [d.p for d in db]))
+                for name, u, v in pairs:
+                    if ok and not close_seq(list(u), list(v), 1e-6):
+                        ok, detail = False, '%s of a curve depends on the basis its points were written in (%r): %r vs all-mass-fraction %r' % (name, bases, list(v), list(u))
             else:
                 ca = po.curve_set(m, random.Random(1), 2, 'weight')
                 cb = po.curve_set(m, random.Random(1), 2, 'molar')
@@ -115,7 +139,7 @@ def oracle(rng, tier):
 
 def correspondence(tier, seed):
     import corr_numeric
-    budget = {'thermo': 20, 'convert': 20, 'solver': 10, 'curve': 10}
+    budget = {'thermo': 20, 'convert': 20, 'solver': 10, 'curve': 10, 'curvemetrics': 10, 'nicurve': 10, 'fit': 8}
     if tier == 'thorough':
         budget = {k: v * 12 for k, v in budget.items()}
     return corr_numeric.run(seed, budget, nmax=30 if tier == 'quick' else 200, tag='C07')
